@@ -1,6 +1,6 @@
 (* C08 — the sleep buffer loses nothing and repeats nothing when writes fail. *)
 From Coq Require Import List NArith ZArith String.
-From AMS Require Import Models GatewayFacts GatewayInv GatewaySteps.
+From AMS Require Import Models GatewayFacts GatewayInv GatewaySteps GatewaySbuf.
 Import ListNotations.
 Local Open Scope Z_scope.
 
@@ -58,6 +58,24 @@ Theorem C08_attempts :
     /\ map we_line (filter we_ok (log_of es faults)) = map (fun e => encode (snd e)) (delivered es faults).
 Proof. intros es faults. exact (conj (log_of_attempts es faults) (log_of_ok es faults)). Qed.
 Print Assumptions C08_attempts.
+
+(* at the level of the gateway, for every wake (any fault stream): a parked command that
+   is not in the delivered prefix — the one whose write failed, the later ones of that
+   node, everything parked for other nodes — is still parked under its key, unchanged.
+   With C07_parked_history (it stays parked through any history that has no wake of its
+   node and no send replacing it) and C07_parked_released (at the next fault-free wake
+   it is written as parked and removed): written exactly once, later *)
+Theorem C08_undelivered_stay :
+  forall bat vlt now w faults line m n b k pm,
+    Inv vlt w -> decode (proto_of w) line = DecOk m -> m_cmd m = 3 ->
+    wake_body (w_proto w) (m_type m) = Some b ->
+    dget Z.eqb (w_nodes w) (m_node m) = Some n ->
+    (b = BHeartbeat20 -> exists hb, py_int (m_payload m) = Some hb) ->
+    dget key_eqb (w_set w) k = Some pm ->
+    ~ In (k, pm) (delivered (filter (of_node (m_node m)) (w_set w)) faults) ->
+    dget key_eqb (w_set (fst (fst (recv bat vlt now w faults line)))) k = Some pm.
+Proof. exact undelivered_stay. Qed.
+Print Assumptions C08_undelivered_stay.
 
 (* non-vacuity: three parked commands, the second write fails, then a clean wake *)
 Example C08_example :
